@@ -60,6 +60,13 @@ def gen_plans(seed, tier, small=False):
             conns += [("P", "s:%s,r,c,e" % hx(p1), [r200, "EOF"], {"kinds": ["p"]}) for _ in range(extra)]
             conns.append(("S", "e", ["EOF"], {"kinds": []}))
             plans.append((T, conns, False))
+    # more open connections than pool threads: a kept-alive connection keeps its worker until IT ends — a connection waiting in the
+    # queue is no reason to close one that neither side asked to close (serve); the other modes serve both at once
+    for T in (1, 2):
+        conns = [("P", "s:%s,r,|,s:%s,r,s:%s,r,c,e" % (hx(p1), hx(p1), hx(p1)), [r200, r200, r200, "EOF"], {"kinds": ["p", "p", "p"]}) for _ in range(T)]
+        conns += [("P", "s:%s,|,r,c,e" % hx(p1), [r200, "EOF"], {"kinds": ["p"]})]
+        conns.append(("S", "e", ["EOF"], {"kinds": []}))
+        plans.append((T, conns, False))
     # connections that end with a reset (RST) instead of a FIN: (a) while idle after an answered request; (b) while still waiting
     # in the queue behind a busy worker (one worker, a slow request on another connection in front). Either way the connection was
     # handed to request handling, so it is torn down exactly once (result either way; whether its request was still read is a race)
